@@ -22,10 +22,26 @@ def collect_objs( m, Type ):
       return all( _is_of_type( x, Type ) for x in obj )
     return False
 
+  # An attribute can be a second reference to an object that has its place
+  # (and its name) somewhere else: s.ws = [ s.w1, s.w2 ]. Such bookkeeping
+  # attributes are fine in simulation; in RTLIR they would become a second,
+  # unconnected set of signals.
+  def _check_not_alias( name, obj ):
+    if isinstance( obj, list ):
+      for x in obj:
+        _check_not_alias( name, x )
+    elif hasattr( obj, '_dsl' ) and hasattr( obj._dsl, 'parent_obj' ) and hasattr( m, '_dsl' ):
+      if obj._dsl.parent_obj is not None and \
+         ( obj._dsl.parent_obj is not m or getattr( obj._dsl, '_my_name', name ) != name ):
+        raise AssertionError(
+          f"attribute {name} of {m} is a second reference to {obj}: "
+          f"such bookkeeping attributes cannot be converted to RTLIR" )
+
   ret = []
   for name, obj in vars(m).items():
     if isinstance( name, str ) and name[0] != '_':
       if _is_of_type( obj, Type ):
+        _check_not_alias( name, obj )
         ret.append( ( name, obj ) )
   return ret
 
